@@ -28,12 +28,19 @@ VStr(segs, m) == [t |-> "str", s |-> segs, m |-> m]
 Seg(a, e, o) == [a |-> a, e |-> e, o |-> o]
 VList(xs) == [t |-> "list", v |-> xs, tup |-> FALSE]
 VTuple(xs) == [t |-> "list", v |-> xs, tup |-> TRUE]
+VRange(xs) == [t |-> "list", v |-> xs, tup |-> FALSE, rg |-> TRUE]   \* a range object: iterable, indexable, not a list
+IsRange(v) == v.t = "list" /\ "rg" \in DOMAIN v
 VDict(ks, vs) == [t |-> "dict", k |-> ks, v |-> vs]
 VUndef(h) == [t |-> "undef", h |-> h]
 
 \* a value or an error: [ok, v, err]
 Ok(v) == [ok |-> TRUE, v |-> v, err |-> ""]
 Err(c) == [ok |-> FALSE, v |-> VNone, err |-> c]
+
+\* the undefined produced by an inline `a if c` without else is always the default kind,
+\* whatever undefined type the environment uses (documented)
+IsCondElse(v) == v.t = "undef" /\ "k" \in DOMAIN v.h /\ v.h.k = "condelse"
+UKof(v, uk) == IF IsCondElse(v) THEN "default" ELSE uk
 
 IsNum(v) == v.t \in {"int", "bool"}
 NumOf(v) == IF v.t = "int" THEN v.n ELSE IF v.b THEN 1 ELSE 0
@@ -65,7 +72,7 @@ Truth(v, undefKind) ==
       [] v.t = "str" -> Ok(VBool(NormSegs(v.s) # <<>>))
       [] v.t = "list" -> Ok(VBool(v.v # <<>>))
       [] v.t = "dict" -> Ok(VBool(v.k # <<>>))
-      [] v.t = "undef" -> IF undefKind = "strict" THEN Err("UndefinedError") ELSE Ok(VBool(FALSE))
+      [] v.t = "undef" -> IF UKof(v, undefKind) = "strict" THEN Err("UndefinedError") ELSE Ok(VBool(FALSE))
       [] OTHER -> Ok(VBool(TRUE))
 
 (* -- equality (Python ==) ----------------------------------------------------- *)
@@ -80,7 +87,8 @@ PyEq(a, b) ==
                 IF PlainText(a.s) /\ PlainText(b.s) THEN B3(TextOf(a.s) = TextOf(b.s))
                 ELSE IF NormSegs(a.s) = NormSegs(b.s) THEN "T" ELSE "?"
            [] a.t = "list" ->
-                IF a.tup # b.tup \/ Len(a.v) # Len(b.v) THEN "F"
+                IF IsRange(a) \/ IsRange(b) THEN "?"
+                ELSE IF a.tup # b.tup \/ Len(a.v) # Len(b.v) THEN "F"
                 ELSE LET rs == [i \in 1..Len(a.v) |-> PyEq(a.v[i], b.v[i])] IN
                      IF \E i \in 1..Len(rs) : rs[i] = "F" THEN "F"
                      ELSE IF \E i \in 1..Len(rs) : rs[i] = "?" THEN "?" ELSE "T"
@@ -97,7 +105,7 @@ ReprScalar(v) ==
       [] v.t = "none" -> "None"
       [] v.t = "list" ->
            LET parts == [i \in 1..Len(v.v) |-> ReprScalar(v.v[i])] IN
-           IF \E i \in 1..Len(parts) : parts[i] = "?" THEN "?"
+           IF IsRange(v) \/ \E i \in 1..Len(parts) : parts[i] = "?" THEN "?"
            ELSE LET RECURSIVE J(_)
                     J(i) == IF i > Len(parts) THEN ""
                             ELSE parts[i] \o (IF i < Len(parts) THEN ", " ELSE "") \o J(i + 1)
@@ -114,8 +122,8 @@ ToStr(v, undefKind) ==
            IF ReprScalar(v) = "?" THEN Err("EXCLUDED")
            ELSE Ok(VStr(<<Seg(ReprScalar(v), 0, "num")>>, FALSE))
       [] v.t = "undef" ->
-           IF undefKind = "strict" THEN Err("UndefinedError")
-           ELSE IF undefKind = "debug" THEN Err("EXCLUDED")
+           IF UKof(v, undefKind) = "strict" THEN Err("UndefinedError")
+           ELSE IF UKof(v, undefKind) = "debug" THEN Err("EXCLUDED")
            ELSE Ok(VStr(<<>>, FALSE))
       [] v.t = "module" -> Ok(VStr(v.body.s, FALSE))        \* str(module): the rendered body, plain
       [] OTHER -> Err("EXCLUDED")
@@ -166,7 +174,9 @@ RECURSIVE Repeat(_, _)
 Repeat(xs, n) == IF n <= 0 THEN <<>> ELSE xs \o Repeat(xs, n - 1)
 
 BinOp(op, a, b) ==
-    IF a.t = "undef" \/ b.t = "undef" THEN Err("UndefinedError")
+    \* Markup + undefined is absorbed by Markup's own operator before the undefined is asked: not documented
+    IF a.t = "str" /\ a.m /\ b.t = "undef" THEN Err("EXCLUDED")
+    ELSE IF a.t = "undef" \/ b.t = "undef" THEN Err("UndefinedError")
     ELSE IF IsNum(a) /\ IsNum(b) THEN
         LET x == NumOf(a)  y == NumOf(b) IN
         CASE op = "+" -> Ok(VInt(x + y))
@@ -185,6 +195,7 @@ BinOp(op, a, b) ==
             ELSE Ok(VStr(a.s \o b.s, FALSE))
         ELSE IF op = "%" THEN Err("EXCLUDED")
         ELSE Err("TypeError")
+    ELSE IF IsRange(a) \/ IsRange(b) THEN Err("EXCLUDED")
     ELSE IF a.t = "list" /\ b.t = "list" THEN
         IF op = "+" THEN (IF a.tup = b.tup THEN Ok([t |-> "list", v |-> a.v \o b.v, tup |-> a.tup]) ELSE Err("TypeError"))
         ELSE Err("TypeError")
@@ -218,7 +229,8 @@ InSeqEq(x, xs) ==
 Tri(r) == IF r = "?" THEN Err("EXCLUDED") ELSE Ok(VBool(r = "T"))
 TriNot(r) == IF r = "?" THEN Err("EXCLUDED") ELSE Ok(VBool(r = "F"))
 
-Hashable(v) == v.t \in {"int", "bool", "none", "str"} \/ (v.t = "list" /\ v.tup)
+\* (a non-strict undefined is hashable; strict undefined comparisons are handled before)
+Hashable(v) == v.t \in {"int", "bool", "none", "str", "undef"} \/ (v.t = "list" /\ v.tup)
 
 RECURSIVE HasUndef(_)
 HasUndef(v) == v.t = "undef" \/ (v.t = "list" /\ \E i \in 1..Len(v.v) : HasUndef(v.v[i]))
@@ -226,7 +238,8 @@ HasUndef(v) == v.t = "undef" \/ (v.t = "list" /\ \E i \in 1..Len(v.v) : HasUndef
 
 CmpOp(op, a, b, uk) ==
     \* a strict undefined raises on every comparison, also == and !=
-    IF uk = "strict" /\ op \in {"eq", "ne"} /\ (a.t = "undef" \/ b.t = "undef") THEN Err("UndefinedError")
+    IF uk # "default" /\ (IsCondElse(a) \/ IsCondElse(b)) THEN Err("EXCLUDED")
+    ELSE IF uk = "strict" /\ op \in {"eq", "ne"} /\ (a.t = "undef" \/ b.t = "undef") THEN Err("UndefinedError")
     ELSE IF uk = "strict" /\ op \in {"eq", "ne", "in", "notin"} /\ (HasUndef(a) \/ HasUndef(b))
             /\ ~(op \in {"in", "notin"} /\ b.t = "undef") THEN Err("EXCLUDED")
     ELSE
